@@ -5,6 +5,7 @@ mod dump;
 mod keys;
 mod ksim;
 mod lsim;
+mod ovr;
 mod pinfo;
 mod swev;
 
@@ -20,6 +21,7 @@ fn main() {
         "ksim" => ksim::run(&args[2..]),
         "pinfo" => pinfo::run(&args[2..]),
         "swev" => swev::run(&args[2..]),
+        "ovr" => ovr::run(&args[2..]),
         other => {
             eprintln!("unknown subcommand {other}");
             std::process::exit(2);
